@@ -237,6 +237,14 @@ def run(chk: common.Check) -> None:
     script = _bdb.script_module()
     skip = _bdb.skip_list()
     specs = _bdb.gen_specs(chk.rng, chk.tier)
+    # the same programs again with debugger start-up files (.pdbrc) in the child's home and working directory: where the debugger prompts is
+    # decided by the answers to the prompts, not by what a user keeps there for the command-line pdb
+    rcs = ['continue\n', '# my settings\nalias pl p locals()\nstep\n', 'next\nnext\n', 'import os\nreturn\n', 'alias q quit\n']
+    extra = []
+    for k, sp in enumerate(specs[::max(1, len(specs) // (10 if chk.tier == 'quick' else 60))]):
+        extra.append(dict(sp, pdbrc=rcs[k % len(rcs)]))
+    specs = specs + extra
+    chk.cov.count('kinds', 'with-pdbrc-files', len(extra))
     results = _trace.run_specs(specs, chunk=24)
     oracle_fail: list = []
     known: list = []
